@@ -39,6 +39,17 @@ def elcode(sym: Any) -> int:
         return 0
 
 
+def enc_label(x):
+    """a node label as JSON value compared for equality only (tuples become lists, integral floats become ints)"""
+    if isinstance(x, (tuple, list)):
+        return [enc_label(y) for y in x]
+    if isinstance(x, bool) or x is None:
+        return int(bool(x))
+    if isinstance(x, (int, float)):
+        return int(x) if float(x).is_integer() else int(round(float(x) * 1000))
+    return elcode(x) if isinstance(x, str) else 0
+
+
 def o2(x) -> int:
     return int(round(float(x) * 2)) if x is not None else 0
 
@@ -87,7 +98,7 @@ def its_abs(I: nx.Graph, ids: List[Any]) -> Dict[str, Any]:
         s = d.get("standard_order", 0)
         std[a][b] = std[b][a] = o2(s if isinstance(s, (int, float)) else 0)
     # the node's own (top-level) labels, next to the (before, after) pair: [element, charge]
-    top = [[elcode(I.nodes[v].get("element")), int(I.nodes[v].get("charge", 0) or 0)] if v in I else [0, 0] for v in ids]
+    top = [[enc_label(I.nodes[v].get("element")), enc_label(I.nodes[v].get("charge", 0))] if v in I else [0, 0] for v in ids]
     return {"n": n, "tG": tG, "tH": tH, "oG": oG, "oH": oH, "std": std, "top": top, "extra_nodes": len([v for v in I.nodes() if v not in idx])}
 
 
@@ -97,7 +108,7 @@ def sub_abs(S: nx.Graph, ids: List[Any]) -> Dict[str, Any]:
     nodes, t, edges, top = [], [], [], []
     for v, d in S.nodes(data=True):
         nodes.append(idx.get(v, 0))
-        top.append([elcode(d.get("element")), int(d.get("charge", 0) or 0)])
+        top.append([enc_label(d.get("element")), enc_label(d.get("charge", 0))])
         gh = d.get("typesGH")
         t.append([tgh(gh[0]), tgh(gh[1])] if gh else [[0, 0, 0, 0], [0, 0, 0, 0]])
     for u, v, d in S.edges(data=True):
